@@ -1929,6 +1929,12 @@ def callees_transitive(unit, node, depth=2, _seen=None):
     return out
 
 
+def _is_callish(x):
+    """a call, a method call, or a function item used as a value (`iter.for_each(helper)`): the places control enters another function of the crate"""
+    k = x.get("k")
+    return k in ("call", "mcall") or (k == "def" and x.get("dk") in ("Fn", "AssocFn") and bool(x.get("p")))
+
+
 def bodies_inl(unit, node, depth=1, exclude=(), max_nodes=1500):
     """[node] + the bodies of the same-crate functions called below it (`depth` levels): the units in which an extracted construct can be
     looked for together with the locals it uses (unlike walk_inl, which flattens caller and callee into one stream)."""
@@ -1937,7 +1943,7 @@ def bodies_inl(unit, node, depth=1, exclude=(), max_nodes=1500):
         nxt = []
         for b_ in frontier:
             for x in walk(b_):
-                if x.get("k") in ("call", "mcall"):
+                if _is_callish(x):
                     p_ = norm_path(x.get("p") or callee(x) or "")
                     if p_ and p_.startswith(unit.crate + "::") and p_ not in seen:
                         cal = unit.norm.get(p_)
@@ -1958,7 +1964,7 @@ def walk_inl(unit, node, depth=2, _seen=None, exclude=(), max_nodes=400):
     _seen = _seen if _seen is not None else set(norm_path(e) for e in exclude)
     for x in walk(node):
         yield x
-        if depth > 0 and x.get("k") in ("call", "mcall"):
+        if depth > 0 and _is_callish(x):
             p_ = norm_path(x.get("p") or callee(x) or "")
             if p_ and p_.startswith(unit.crate + "::") and p_ not in _seen:
                 cal = unit.norm.get(p_)
@@ -1980,7 +1986,7 @@ def fns_inl(unit, f, depth=2, max_nodes=1500):
         nxt = []
         for g in frontier:
             for x in walk(fn_body(g)):
-                if x.get("k") in ("call", "mcall"):
+                if _is_callish(x):
                     p_ = norm_path(x.get("p") or callee(x) or "")
                     if p_ and p_.startswith(unit.crate + "::") and p_ not in seen:
                         cal = unit.norm.get(p_)
@@ -2067,7 +2073,7 @@ def with_conditions_inl(unit, node, stack=(), depth=2, _seen=None, max_nodes=150
     _seen = _seen if _seen is not None else set()
     for n, st in with_conditions(node, stack):
         yield n, st
-        if depth > 0 and isinstance(n, dict) and n.get("k") in ("call", "mcall"):
+        if depth > 0 and isinstance(n, dict) and _is_callish(n):
             p_ = norm_path(n.get("p") or callee(n) or "")
             if p_ and p_.startswith(unit.crate + "::") and p_ not in _seen:
                 cal = unit.norm.get(p_)
